@@ -696,15 +696,7 @@ impl<'g> Cx<'g> {
                 for (a, (pn, pt)) in call_args[idx..].iter().zip(info.params.iter()) {
                     if info.mut_params.contains(pn) {
                         // `&mut cursor` argument: a place (a `&mut impl Read` parameter passed on, or `&mut local`)
-                        let mut inner: &syn::Expr = a;
-                        loop {
-                            match inner {
-                                syn::Expr::Reference(r) => inner = &r.expr,
-                                syn::Expr::Paren(p) => inner = &p.expr,
-                                _ => break,
-                            }
-                        }
-                        let pl = self.place(inner, stmts)?;
+                        let pl = self.mut_arg_place(a, pt, stmts)?;
                         let t = self.read(&pl, stmts)?;
                         args.push_str(&format!(" {}", t));
                         places.push(pl);
@@ -732,15 +724,7 @@ impl<'g> Cx<'g> {
                 let mut places: Vec<Place> = Vec::new();
                 for (a, (pn, pt)) in m.args.iter().zip(info.params.iter()) {
                     if info.mut_params.contains(pn) {
-                        let mut inner: &syn::Expr = a;
-                        loop {
-                            match inner {
-                                syn::Expr::Reference(r) => inner = &r.expr,
-                                syn::Expr::Paren(p) => inner = &p.expr,
-                                _ => break,
-                            }
-                        }
-                        let pl = self.place(inner, stmts)?;
+                        let pl = self.mut_arg_place(a, pt, stmts)?;
                         let t = self.read(&pl, stmts)?;
                         args.push_str(&format!(" {}", t));
                         places.push(pl);
@@ -753,6 +737,57 @@ impl<'g> Cx<'g> {
             }
             _ => self.bail(e.span(), "expected a call"),
         }
+    }
+
+    /// the place behind a `&mut` argument: `&mut place`, `&mut place[a..b]`, a `&mut` parameter passed on, or a fresh
+    /// temporary for `&mut Cursor::new(..)` (a cursor over a buffer keeps writing into that buffer)
+    pub fn mut_arg_place(&mut self, a: &syn::Expr, pt: &Ty, stmts: &mut Vec<Stmt>) -> R<Place> {
+        let mut inner: &syn::Expr = a;
+        loop {
+            match inner {
+                syn::Expr::Reference(r) => inner = &r.expr,
+                syn::Expr::Paren(p) => inner = &p.expr,
+                _ => break,
+            }
+        }
+        // an `Option<&mut T>` parameter: `Some(&mut place)`, `None`, or the caller's own such parameter
+        if let Ty::Opt(et) = pt {
+            match inner {
+                syn::Expr::Call(c) if matches!(&*c.func, syn::Expr::Path(p) if p.path.is_ident("Some")) && c.args.len() == 1 => {
+                    let mut x: &syn::Expr = &c.args[0];
+                    loop {
+                        match x {
+                            syn::Expr::Reference(r) => x = &r.expr,
+                            syn::Expr::Paren(p) => x = &p.expr,
+                            _ => break,
+                        }
+                    }
+                    let pl = self.place(x, stmts)?;
+                    let site = self.site(inner);
+                    return Ok(Place::OptWrap(Box::new(pl), pt.clone(), site));
+                }
+                syn::Expr::Path(p) if p.path.is_ident("None") => return Ok(Place::Nowhere(pt.clone())),
+                syn::Expr::Path(p) if p.path.segments.len() == 1 && self.opt_mut_params.contains(&p.path.segments[0].ident.to_string()) => {
+                    return Ok(Place::Var(p.path.segments[0].ident.to_string(), pt.clone()));
+                }
+                _ => {
+                    let _ = et;
+                    return self.bail(a.span(), "argument for an `Option<&mut T>` parameter must be `Some(&mut place)`, `None` or such a parameter");
+                }
+            }
+        }
+        if let syn::Expr::Call(_) = inner {
+            let (v, t) = self.expr(inner, Some(pt), stmts)?;
+            let k = self.fresh();
+            let name = format!("tmp_{}", k);
+            stmts.push(Stmt::Let(lean_ident(&name), v));
+            self.declare(&name, t.clone());
+            if let Some(b) = self.pending_backing.take() {
+                self.backings.push((name.clone(), b));
+            }
+            return Ok(Place::Var(name, t));
+        }
+        self.place(inner, stmts)
     }
 
     /// bind a call (`caller (term)`), write the `&mut` cursor arguments back, return the value term
@@ -851,15 +886,7 @@ impl<'g> Cx<'g> {
         let mut places: Vec<Place> = vec![pl.clone()];
         for (a, (pn, pt)) in m.args.iter().zip(info.params.iter()) {
             if info.mut_params.contains(pn) {
-                let mut inner: &syn::Expr = a;
-                loop {
-                    match inner {
-                        syn::Expr::Reference(r) => inner = &r.expr,
-                        syn::Expr::Paren(p) => inner = &p.expr,
-                        _ => break,
-                    }
-                }
-                let apl = self.place(inner, stmts)?;
+                let apl = self.mut_arg_place(a, pt, stmts)?;
                 let t = self.read(&apl, stmts)?;
                 args.push_str(&format!(" {}", t));
                 places.push(apl);
@@ -1185,11 +1212,54 @@ impl<'g> Cx<'g> {
             return Ok(("[]".into(), t));
         }
         if segs.len() >= 2 && segs[segs.len() - 2] == "Cursor" && last == "new" && args.len() == 1 {
-            // `io::Cursor::new(slice)` read through `io::Read`
-            if matches!(args[0], syn::Expr::Reference(r) if r.mutability.is_some()) {
-                return self.bail(whole.span(), "`Cursor::new(&mut buffer)` (a writer into a local buffer) is not supported");
+            // `io::Cursor::new(slice)`: a reader (`io::Read`) or, over a `&mut` buffer, a writer (`io::Write`) whose writes
+            // land in that buffer.  Which one is decided by the expected type (the callee's `impl io::Read` /
+            // `impl io::Write` parameter) or, for a `let`, by how the variable is used (see `cursor_kind_hint`).
+            let mut inner: &syn::Expr = args[0];
+            let mut by_mut_ref = false;
+            loop {
+                match inner {
+                    syn::Expr::Reference(r) => {
+                        by_mut_ref = by_mut_ref || r.mutability.is_some();
+                        inner = &r.expr
+                    }
+                    syn::Expr::Paren(p) => inner = &p.expr,
+                    syn::Expr::Unary(u) if matches!(u.op, syn::UnOp::Deref(_)) => inner = &u.expr,
+                    _ => break,
+                }
             }
-            let (t, ty) = self.expr(args[0], None, stmts)?;
+            // `buffer[..]` is the buffer
+            if let syn::Expr::Index(ix) = inner {
+                if let syn::Expr::Range(r) = &*ix.index {
+                    if r.start.is_none() && r.end.is_none() {
+                        inner = &ix.expr;
+                    }
+                }
+            }
+            // a `&mut [u8]` parameter passed without `&mut`
+            if let syn::Expr::Path(p) = inner {
+                if p.path.segments.len() == 1 && self.mut_params.contains(&p.path.segments[0].ident.to_string()) {
+                    by_mut_ref = true;
+                }
+            }
+            let want_writer = match exp {
+                Some(Ty::Named(n)) if n == "WriteCursor" => true,
+                Some(Ty::Named(n)) if n == "ReadCursor" => false,
+                _ => self.cursor_kind_hint.take().unwrap_or(false),
+            };
+            if want_writer {
+                if !by_mut_ref || !self.is_place(inner) {
+                    return self.bail(whole.span(), "a writing `Cursor::new` needs `&mut <buffer place>`");
+                }
+                let pl = self.place(inner, stmts)?;
+                if !matches!(pl.ty(), Ty::List(ref e, _) if matches!(**e, Ty::Int(8))) {
+                    return self.bail(whole.span(), "`Cursor::new` needs a byte buffer");
+                }
+                let cur = self.read(&pl, stmts)?;
+                self.pending_backing = Some(pl);
+                return Ok((format!("(RustSem.WriteCursor.new {})", cur), Ty::Named("WriteCursor".into())));
+            }
+            let (t, ty) = self.expr(inner, None, stmts)?;
             if !matches!(&ty, Ty::List(e, _) if matches!(**e, Ty::Int(8))) {
                 return self.bail(whole.span(), "`Cursor::new` needs a byte slice");
             }
@@ -1413,6 +1483,7 @@ impl<'g> Cx<'g> {
                 ("OctetsMut" | "Octets", "is_empty", 0) => Some(Ty::Bool),
                 ("OctetsMut" | "Octets", "to_vec", 0) => Some(Ty::List(Box::new(Ty::u8()), ListKind::Vec)),
                 ("Range", "is_empty", 0) => Some(Ty::Bool),
+                ("ReadCursor" | "WriteCursor", "position", 0) => Some(Ty::Int(64)),
                 _ => None,
             };
             if let Some(t) = pure_model {
